@@ -11,6 +11,7 @@ from ..events import container_events, root_name
 from ..defuse import DefUse, Terms, show, walk_term
 from ..defuse import key as tkey_
 from ..tutil import (apply_partials, bound_args, lin, no_uids, simp,
+                     strip_materialise,
                      text_parts)
 
 EXPLANATION = (
@@ -229,6 +230,42 @@ def _psm(ctx, f):
         raise AnalysisError(f"{f.qual}: back-to-front insertion recognised; "
                             "the remaining C20b clauses were written for "
                             "the running-offset idiom and need re-reading")
+    # the running offset is only right when the modifications are visited
+    # in increasing numeric position: document order (as the format lists
+    # them), or an explicit numeric sort
+    it = strip_materialise(Tn.of(ml.iter))
+    ok_src, why_src = True, ""
+    if it[0] == "call" and it[1] == "builtins.sorted":
+        kws = dict(it[3])
+        key = kws.get("key")
+        pos_ok = False
+        if key is not None and key[0] == "lambda" and len(key[1]) == 1:
+            pos = ("mcall", ("lparam", key[1][0]), "get",
+                   (("const", "position"),), ())
+            pos_ok = key[2] in (("call", "builtins.int", (pos,), ()),
+                                ("call", "builtins.float", (pos,), ()))
+        if kws.get("reverse", ("const", False)) != ("const", False):
+            ok_src, why_src = False, (
+                "modifications are visited in decreasing order while a "
+                "running offset is added: every insertion after the first "
+                "lands too far right")
+        elif not pos_ok:
+            ok_src, why_src = False, (
+                "modifications are sorted by "
+                f"{show(key[2], 60) if key else 'their element order'}: "
+                "positions are compared as text ('10' < '9'), so a later "
+                "residue is handled first and the running offset is applied "
+                "to the wrong insertions")
+    elif it[0] == "call" and it[1] == "builtins.reversed":
+        ok_src, why_src = False, (
+            "modifications are visited back to front while a running "
+            "offset is added")
+    elif not (it[0] == "mcall" and it[2] in ("iter", "findall", "iterfind")):
+        raise AnalysisError(f"{f.qual}: source of the modification loop "
+                            f"not recognised: {show(it, 100)}")
+    ctx.check(ok_src, "C20b-visited-in-position-order", f,
+              "modifications are visited in document order or sorted by "
+              "numeric position", why_src, node=ml)
     Tv = Terms(du, phi_vars=True)
     MOD = ("elem", Tv.of(ml.iter))
     POS = ("call", "builtins.int",
